@@ -18,6 +18,7 @@ import time
 
 import xonsh.platform as xp
 import xonsh.tools as xt
+from xonsh._verif import sched_point
 from xonsh.built_ins import XSH
 from xonsh.cli_utils import run_with_partial_args
 from xonsh.procs.pipes import PipeChannel
@@ -499,7 +500,9 @@ class ProcProxyThread(threading.Thread):
             r = 1
         safe_flush(sp_stdout)
         safe_flush(sp_stderr)
+        sched_point("proxies.ProcProxyThread.run.before_returncode")
         self.returncode = parse_proxy_return(r, sp_stdout, sp_stderr)
+        sched_point("proxies.ProcProxyThread.run.before_close")
         try:
             if not last_in_pipeline:
                 # Close wrappers before closing raw fds to avoid
